@@ -674,3 +674,19 @@ pub fn effect_kind(e: &CommitEffect) -> &'static str {
         CommitEffect::ReInit(_) => "reinit",
     }
 }
+
+/// `apply_pending_commit` and its `_backwards_compatible` twin do the same for commits built by
+/// this version of the library; the harness alternates between the two entry points.
+pub trait ApplyPendingAlt {
+    fn apply_pending_alt(&mut self) -> Result<mls_rs::group::CommitMessageDescription, MlsError>;
+}
+
+impl ApplyPendingAlt for VGroup {
+    fn apply_pending_alt(&mut self) -> Result<mls_rs::group::CommitMessageDescription, MlsError> {
+        if use_timed_entry_point() {
+            self.apply_pending_commit_backwards_compatible()
+        } else {
+            self.apply_pending_commit()
+        }
+    }
+}
